@@ -16,7 +16,7 @@ def fresh : St :=
     next := 0, metaSet := [] }
 
 /-- token balance of the module account the harness writes into a fresh `tinyd` contract -/
-def tinydPrefund : Nat := 10 ^ 33
+def tinydPrefund : Nat := 2 ^ 256 - 1
 
 def ackStr : Option Ack → String
   | none => "nil"
@@ -191,7 +191,7 @@ def step (st : St) (line : String) : St × String :=
     -- pkt = seq,srcPort,srcChan,dstPort,dstChan,data ; dnm = data.Denom as decoded ; then the sha256 naming of the
     -- raw traces the model may ask for (table computed by the harness with ibc-go's DenomTrace.IBCDenom)
     match pkt.splitOn ",", parseOptInt amt, parseOptAddr rcv, unhex dnm, hn.toNat? with
-    | [_, sp, sc, dp, dc, _], some amount, some receiver, some dnmb, some hnn =>
+    | _ :: sp :: sc :: dp :: dc :: _ :: _, some amount, some receiver, some dnmb, some hnn =>
       match parseHashes hnn rest0 with
       | none => (st, "bad-op")
       | some (tbl, rest1) =>
